@@ -604,6 +604,48 @@ def write_baseline(W, path=BASELINE):
 TRANSPORT_OK = set(P.TRANSPARENT)
 
 
+def _is_request_payload(body, t):
+    """t denotes the request's body stream: a coroutine capture / local of type actix_web::web::Payload."""
+    while t[0] == "mut":
+        t = t[3]
+    if t[0] == "upvar":
+        # type of capture i = type of `(_1.i)` as recorded in any place projection of the body
+        for blk in body.blocks:
+            for st in blk["stmts"]:
+                if st["k"] != "assign":
+                    continue
+                for pl in _places_of(st):
+                    if pl["l"] == 1:
+                        pr = [e for e in pl["proj"] if e["k"] == "field" and e.get("upvar")]
+                        if pr and pr[0]["i"] == t[1]:
+                            return "payload::Payload" in pr[0]["ty"]
+            tt = blk["term"]
+            if tt["k"] == "call":
+                for a_ in tt["args"]:
+                    if a_.get("k") in ("copy", "move") and a_["p"]["l"] == 1:
+                        pr = [e for e in a_["p"]["proj"] if e["k"] == "field" and e.get("upvar")]
+                        if pr and pr[0]["i"] == t[1]:
+                            return "payload::Payload" in pr[0]["ty"]
+        return False
+    return False
+
+
+def _places_of(st):
+    out = []
+    rv = st["rv"]
+    for k in ("p",):
+        if isinstance(rv.get(k), dict):
+            out.append(rv[k])
+    for k in ("op", "a", "b"):
+        o = rv.get(k)
+        if isinstance(o, dict) and o.get("k") in ("copy", "move"):
+            out.append(o["p"])
+    for o in rv.get("ops", []):
+        if o.get("k") in ("copy", "move"):
+            out.append(o["p"])
+    return out
+
+
 def is_transport_of(t, src):
     """t is `src` possibly wrapped in identity transports (already normalised away by prov)."""
     return t == src
@@ -639,7 +681,7 @@ def c06(rep, W, rule="C06"):
                 core = core[1]
                 depth += 1
             okc = core[0] == "call" and core[1] == "core::future::future::Future::poll" and depth == 3 and \
-                any(x[0] == "call" and x[1] == "futures_util::stream::stream::StreamExt::next" and P.show(x[3][0]).find("payload") >= 0 for x in P.walk(core))
+                any(x[0] == "call" and x[1] == "futures_util::stream::stream::StreamExt::next" and _is_request_payload(body, x[3][0]) for x in P.walk(core))
             rep.ob(rule + ".ACCUM", (fn, "appends-whole-chunk", S.ordinal_key(body, c, bb)), okc,
                    "appended slice is %s; must be the whole chunk yielded by payload.next().await (no index / split / slice / timeout wrapper)" % P.show(chunk)[:140], where(body, bb))
             nxt = [x for x in P.walk(core) if x[0] == "call" and x[1] == "futures_util::stream::stream::StreamExt::next"]
